@@ -131,6 +131,8 @@ pub enum Elem {
     Rep(u16, u8),
     /// a chunk that occurs nowhere else
     Uniq(u64),
+    /// `count` copies of the constant-byte chunk (a forced cut at exactly the maximum chunk size)
+    Big(u8, u8),
 }
 
 #[derive(Clone, Debug, Serialize, Deserialize, PartialEq)]
@@ -193,7 +195,9 @@ impl ChunkPool {
         }
         let max = self.params.max;
         let mut r = Sm64(self.seed ^ key.wrapping_mul(0x9E3779B97F4A7C15));
-        let stream: Vec<u8> = match key % 8 {
+        let stream: Vec<u8> = if key >= BIG_BASE && key < UNIQ_BASE {
+            vec![(key - BIG_BASE) as u8 ^ 0x5a; max]
+        } else { match key % 8 {
             5 => {
                 let p = 3 + (r.next() % 200) as usize;
                 let block = r.bytes(p);
@@ -206,7 +210,7 @@ impl ChunkPool {
             },
             7 => vec![(key / 8 % 4) as u8; max],
             _ => r.bytes(max),
-        };
+        } };
         let c = Arc::new(self.natural_from_stream(stream));
         self.cache.lock().unwrap().insert(key, c.clone());
         c
@@ -214,6 +218,7 @@ impl ChunkPool {
 }
 
 pub const UNIQ_BASE: u64 = 1 << 40;
+pub const BIG_BASE: u64 = 1 << 39;
 
 impl FileSpec {
     /// expanded list of chunk keys (pool ids, or UNIQ_BASE + seed for unique chunks)
@@ -237,6 +242,11 @@ impl FileSpec {
                     }
                 },
                 Elem::Uniq(seed) => out.push(UNIQ_BASE + (*seed >> 24)),
+                Elem::Big(b, n) => {
+                    for _ in 0..*n {
+                        out.push(BIG_BASE + (*b % 4) as u64);
+                    }
+                },
             }
         }
         out
